@@ -3,7 +3,7 @@ Bounded stand-in (labelled bounded): on stock cases with their events, every acc
 trapezoid rule  |T (x1 - x0) - h/2 (f1 + f0)| <= 50 tol  (f stored with config.store_f), the time stamps increase strictly, a step ends
 exactly at every scheduled event time and the run ends exactly at tf.
 """
-CASES = [('kundur/kundur_full.xlsx', 3.0), ('ieee14/ieee14_fault.xlsx', 2.0), ('ieee14/ieee14_fault.json@tstep=0.4', 5.0)]       # the last one rejects and retries a step
+CASES = [('kundur/kundur_full.xlsx', 3.0), ('mixed:kundur', 3.0), ('ieee14/ieee14_fault.xlsx', 2.0), ('ieee14/ieee14_fault.json@tstep=0.4', 5.0)]       # the last one rejects and retries a step
 
 
 def run():
@@ -17,7 +17,7 @@ def run():
     for case, tf in CASES:
         case, _, opt = case.partition('@')
         with contextlib.redirect_stdout(io.StringIO()), contextlib.redirect_stderr(io.StringIO()):
-            ss = andes.load(andes.get_case(case), default_config=True, no_output=True)
+            ss = andes.load(__import__('contracts.mixed_case', fromlist=['resolve']).resolve(case), default_config=True, no_output=True)
             ss.TDS.config.store_f = 1
             ss.TDS.config.tf = tf
             if opt.startswith('tstep='):
